@@ -16,6 +16,7 @@ rustc remains the authority for Send + Sync (`assert_send_sync::<T>()` for every
 harness build).
 -/
 import TzVerif.Generated.Inventory
+import TzVerif.Generated.StableC15   -- per run: the current translation (SrcNow) equals the baseline (Src) these theorems are about
 
 namespace TzVerif.C15
 open TzVerif.Gen
